@@ -5,6 +5,8 @@
 struct TestExc {
     int code;
 };
+// an exception type derived from the library's await_canceled_exception
+struct DerivedCanceled : cocls::await_canceled_exception {};
 
 enum { K_NONE = 0, K_VAL = 1, K_EXC = 2, K_ENDF = 3, K_ENDT = 4, K_PEND = 5, K_NREADY = 6 };
 
@@ -209,6 +211,15 @@ struct Guard {
             } \
             case 4: throw TestExc{(int)a}; \
             case 5: co_return; \
+            case 20: throw await_canceled_exception(); \
+            case 21: throw DerivedCanceled(); \
+            case 22: { /* co_await of a future whose promise was dropped: await_canceled_exception */ \
+                future<int> f; \
+                { promise<int> dropped = f.get_promise(); } \
+                int r = co_await f; \
+                c->event(4, r); \
+                break; \
+            } \
             case 6: \
                 switch (ng) { \
                     case 0: g0.emplace(c, a); ng++; break; \
@@ -359,6 +370,12 @@ struct Ctx : CtxBase {
         } catch (const TestExc &e) {
             r.kind = K_EXC;
             r.val = e.code;
+        } catch (const DerivedCanceled &) {
+            r.kind = K_EXC;
+            r.val = 1002;
+        } catch (const await_canceled_exception &) {
+            r.kind = K_EXC;
+            r.val = 1001;
         } catch (const value_not_ready_exception &) {
             r.kind = K_NREADY;
         }
@@ -373,6 +390,12 @@ struct Ctx : CtxBase {
         } catch (const TestExc &e) {
             r.kind = K_EXC;
             r.val = e.code;
+        } catch (const DerivedCanceled &) {
+            r.kind = K_EXC;
+            r.val = 1002;
+        } catch (const await_canceled_exception &) {
+            r.kind = K_EXC;
+            r.val = 1001;
         }
         return r;
     }
@@ -409,6 +432,12 @@ struct Ctx : CtxBase {
                             } catch (const TestExc &e) {
                                 r.kind = K_EXC;
                                 r.val = e.code;
+                            } catch (const DerivedCanceled &) {
+                                r.kind = K_EXC;
+                                r.val = 1002;
+                            } catch (const await_canceled_exception &) {
+                                r.kind = K_EXC;
+                                r.val = 1001;
                             } catch (const value_not_ready_exception &) {
                                 r.kind = K_NREADY;
                             }
